@@ -643,6 +643,18 @@ def dumpRelOp (k : TK) (st : List Chunk) : PyM (List Chunk) := do
   let (left, st) ← pop st
   .ok ((left ++ [.sp, pa k, .sp]) :: st)
 
+/-- `re.fullmatch(r"-?[0-9]+", s)` -/
+def decIntText (s : String) : Bool :=
+  let ds := match s.toList with
+    | '-' :: r => r
+    | r => r
+  !ds.isEmpty && ds.all Char.isDigit
+
+/-- `DumpAST.select(left)`: `left.`, with a blank after a decimal integer literal (`1 .f` must not
+become the float `1.`) -/
+def selectDot (left : Chunk) : Chunk :=
+  if decIntText left.text then left ++ [.sp, pa .DOT] else left ++ [pa .DOT]
+
 /-- the visitor method of rule `r` applied to a node with children `cs` (after the children
 were visited) -/
 def dumpRule (r : NT) (cs : List Tree) (st : List Chunk) : PyM (List Chunk) :=
@@ -669,12 +681,12 @@ def dumpRule (r : NT) (cs : List Tree) (st : List Chunk) : PyM (List Chunk) :=
       let right ← tokenValue cs[1]?
       match st with
       | [] => .ok st
-      | left :: st => .ok ((left ++ [pa .DOT, right]) :: st)
+      | left :: st => .ok ((selectDot left ++ [right]) :: st)
   | .member_dot_arg => do
       let (exprlist, st) ← if cs.length = 3 then pop st else .ok ([], st)
       let right ← tokenValue cs[1]?
       let (left, st) ← pop st
-      .ok ((left ++ (pa .DOT :: right :: pa .LPAR :: (exprlist ++ [pa .RPAR]))) :: st)
+      .ok ((selectDot left ++ (right :: pa .LPAR :: (exprlist ++ [pa .RPAR]))) :: st)
   | .member_index => do
       let (right, st) ← pop st
       let (left, st) ← pop st
@@ -985,6 +997,12 @@ callback retypes the token when the whole word equals a *string* terminal accept
 current parser state (`null` → NULL_LIT, `in` → IN), (2) if the type is still IDENT, the
 user callback `CELParser.ambiguous_literals` (celparser.py) retypes `true`/`false` to BOOL_LIT
 (`BOOL_LIT` is a regex terminal, so lark's own mechanism does not apply to it). -/
+
+/-- `%ignore`d terminals with their regular expressions: blanks (tab, newline, form feed, carriage
+return, space) and `//` comments to the end of the line are dropped by the lexer, which is why
+`render` and `Derives` work on token strings without them -/
+def ignoredPatterns : List (String × String) :=
+  [("COMMENT", "\\/\\/.*"), ("WHITESPACE", "[\t\n\x0c\r ]+")]
 
 /-- `CELParser.ambiguous_literals` as a table: word ↦ new terminal -/
 def ambiguousLiterals : List (String × TK) := [("true", .BOOL_LIT), ("false", .BOOL_LIT)]
